@@ -361,7 +361,13 @@ func c02PortSplit(c *Ctx) {
 	c.L.Floor("C02.port.number", 1)
 	sp := c.fn("netutil", "splitAddrPort")
 	top := c.fn("netutil", "IsValidIPPortString")
-	if sp != nil && len(sp.Params) == 1 {
+	// decided exactly where possible (c05exact.go); the walk over the six
+	// recognised branch atoms is the fall-back
+	splitExact := c02SplitExact(c)
+	if splitExact {
+		c.L.Floor("C02.port.split", 1)
+	}
+	if sp != nil && len(sp.Params) == 1 && !splitExact {
 		s := ssa.Value(sp.Params[0])
 		var idx ssa.Value
 		for _, ci := range core.CallsTo(sp, "strings.LastIndexByte") {
